@@ -363,7 +363,91 @@ static void *thread_encode(void *va) {
     return (void *)same;
 }
 
+/* Instance churn: fresh instances of several shapes are created, used and destroyed in a random order
+   while others stay open; every encode must give the same bytes as every other encode with the same
+   instance arguments and data, every decode the data.  At the end the bytes seen are compared with a
+   reference stripe that goes through the model as an `enc` line.  Shapes come in pairs whose private
+   tables have the same allocation size, so that a freed block is handed to the next instance.  Runs
+   first in its suite: state left behind by earlier calls (caches with a limited number of slots) must
+   not mask anything. */
+void churn(const char *prop, int tier, int rs_only) {
+    static const int pairs[][2][2] = { {{4,6},{5,3}}, {{3,9},{4,5}}, {{2,4},{3,1}}, {{6,2},{4,8}}, {{8,16},{12,4}}, {{2,7},{3,3}}, {{6,9},{9,1}} };
+    enum { P = 10, SL = 4 };
+    cfg_t pool[P]; unsigned char *data[P]; size_t dlen[P]; unsigned char *seen[P]; uint64_t seen_fl[P]; int np = 0;
+    int pi = (int)rnd(7), pj = (int)rnd(7);
+    int cand[P][2] = { {pairs[pi][0][0], pairs[pi][0][1]}, {pairs[pi][1][0], pairs[pi][1][1]}, {pairs[pj][0][0], pairs[pj][0][1]}, {pairs[pj][1][0], pairs[pj][1][1]},
+                       {1 + (int)rnd(8), 2 + (int)rnd(4)}, {1 + (int)rnd(8), 2 + (int)rnd(4)}, {2, 2}, {10, 4}, {0, 0}, {0, 0} };
+    for (int i = 0; i < P; i++) {
+        cfg_t c;
+        if (i < 8) c = (cfg_t){ 6, cand[i][0], cand[i][1], cand[i][1], 1 + (int)rnd(2) };
+        else if (rs_only) continue;
+        else { const int *x = xor_shapes[rnd(n_xor_shapes)]; c = (cfg_t){ 3, x[0], x[1], x[2], 1 + (int)rnd(2) }; }
+        int dup = 0; for (int j = 0; j < np; j++) if (pool[j].be == c.be && pool[j].k == c.k && pool[j].m == c.m && pool[j].hd == c.hd) dup = 1;
+        if (dup) continue;
+        dlen[np] = 1 + rnd(6 * c.k); data[np] = gen_data(dlen[np], 0); seen[np] = NULL; seen_fl[np] = 0;
+        pool[np++] = c;
+    }
+    int slot[SL], sp[SL]; for (int i = 0; i < SL; i++) slot[i] = -1;
+    int steps = tier ? 400 : 120, bad = 0;
+    for (int t = 0; t < steps && np; t++) {
+        int q = (int)rnd(SL);
+        if (slot[q] <= 0) {
+            int p = (int)rnd(np); cfg_t c = pool[p];
+            struct ec_args a; memset(&a, 0, sizeof a); a.k = c.k; a.m = c.m; a.hd = c.hd; a.ct = c.ct == 2 ? CHKSUM_CRC32 : CHKSUM_NONE;
+            slot[q] = liberasurecode_instance_create((ec_backend_id_t)c.be, &a); sp[q] = p;
+            if (slot[q] <= 0) { oracle_fail(prop, "churn: create failed (%d) for be=%d (%d,%d,%d)", slot[q], c.be, c.k, c.m, c.hd); bad++; }
+            stat_add("churn.creates", 1);
+        } else if (rnd(3) == 0) {
+            liberasurecode_instance_destroy(slot[q]); slot[q] = -1;
+            stat_add("churn.destroys", 1);
+            continue;
+        }
+        if (slot[q] <= 0) continue;
+        int p = sp[q]; cfg_t c = pool[p]; int n = c.k + c.m;
+        char **ed = NULL, **ep = NULL; uint64_t fl = 0;
+        int rc = liberasurecode_encode(slot[q], (char *)data[p], dlen[p], &ed, &ep, &fl);
+        if (rc != 0) { oracle_fail(prop, "churn: encode rc=%d for be=%d (%d,%d,%d)", rc, c.be, c.k, c.m, c.hd); bad++; continue; }
+        if (!seen[p]) {
+            seen[p] = malloc((size_t)n * fl); seen_fl[p] = fl;
+            for (int i = 0; i < n; i++) memcpy(seen[p] + (size_t)i * fl, i < c.k ? ed[i] : ep[i - c.k], fl);
+        } else for (int i = 0; i < n; i++) {
+            char *f = i < c.k ? ed[i] : ep[i - c.k];
+            if (fl != seen_fl[p] || memcmp(f, seen[p] + (size_t)i * fl, fl)) {
+                oracle_fail(prop, "churn step %d: fragment %d of be=%d (%d,%d,%d) differs from an earlier encode with the same instance arguments and data (the result depends on the history of other instances)", t, i, c.be, c.k, c.m, c.hd);
+                bad++; break;
+            }
+        }
+        /* decode from the fragments just produced, data fragments missing first */
+        int tol = cfg_tolerance(c), e = 1 + (int)rnd(tol); if (e > c.k) e = c.k;
+        char *fr[80]; int cnt = 0;
+        for (int i = e; i < n; i++) fr[cnt++] = i < c.k ? ed[i] : ep[i - c.k];
+        char *od = NULL; uint64_t ol = 0;
+        rc = liberasurecode_decode(slot[q], fr, cnt, fl, 0, &od, &ol);
+        if (rc != 0) { oracle_fail(prop, "churn step %d: decode rc=%d with %d data fragments missing, be=%d (%d,%d,%d)", t, rc, e, c.be, c.k, c.m, c.hd); bad++; }
+        else { if (ol != dlen[p] || memcmp(od, data[p], ol)) { oracle_fail(prop, "churn step %d: decode returned wrong bytes, be=%d (%d,%d,%d)", t, c.be, c.k, c.m, c.hd); bad++; }
+               liberasurecode_decode_cleanup(slot[q], od); }
+        liberasurecode_encode_cleanup(slot[q], ed, ep);
+        stat_add("churn.encodes", 1);
+        if (bad > 5) break;
+    }
+    for (int i = 0; i < SL; i++) if (slot[i] > 0) liberasurecode_instance_destroy(slot[i]);
+    /* what was seen against the reference stripe (which the model checks) */
+    for (int p = 0; p < np; p++) {
+        stripe_t r;
+        if (seen[p] && op_enc(pool[p], 0, data[p], dlen[p], &r) == 0) {
+            for (int i = 0; i < r.n; i++)
+                if (r.flen != seen_fl[p] || memcmp(r.all[i], seen[p] + (size_t)i * r.flen, r.flen)) {
+                    oracle_fail(prop, "churn: fragment %d of be=%d (%d,%d,%d) encoded during the history differs from the reference stripe", i, pool[p].be, pool[p].k, pool[p].m, pool[p].hd);
+                    break;
+                }
+            stripe_free(&r);
+        }
+        free(seen[p]); free(data[p]);
+    }
+}
+
 void suite_pure(int tier) {
+    for (int r = 0; r < (tier ? 12 : 3); r++) churn("C15", tier, 0);
     int cases = tier ? 200 : 30;
     for (int t = 0; t < cases; t++) {
         cfg_t c = cfg_random_ec();
